@@ -132,7 +132,14 @@ class ReaderRoles(object):
                 self.readers.append((f, ops))
         seekers = [f for f, ops in self.readers if any(m == 'seek' for _, m in ops)]
         self.readahead_fn = seekers[0] if len(seekers) == 1 else None
-        others = [f for f, ops in self.readers if f not in seekers]
+        if self.readahead_fn is None and not seekers:
+            # a line reader without give-back (e.g. readline based): the stream
+            # consumer the header function calls
+            callees = {g for _, g in self_calls(P, self.header_fn, self.cls)}
+            cands = [f for f, ops in self.readers if f in callees]
+            if len(cands) == 1:
+                self.readahead_fn = cands[0]
+        others = [f for f, ops in self.readers if f is not self.readahead_fn and f not in seekers]
         self.content_fn = others[0] if len(others) == 1 else None
 
     def _regex_of(self, fi, expr):
